@@ -653,7 +653,7 @@ func wlPredictive(inst int) string {
 					if err != nil {
 						return "ast-reject"
 					}
-					return node.String()
+					return node.String() + astDOT(node)
 				}))
 			}
 		}
@@ -677,7 +677,7 @@ func lrWorkload(specs []int, build tableBuilder, newParser func(lexer.Lexer, *gr
 			for _, levels := range variants {
 				g := buildGrammar(spec, inst+gi)
 				t, err := build(g, buildPrec(spec, inst+gi, levels))
-				out = append(out, errStr(err))
+				out = append(out, errStr(err), buildPrec(spec, inst+gi, levels).String())
 				if err != nil || t == nil {
 					continue
 				}
@@ -696,7 +696,7 @@ func lrWorkload(specs []int, build tableBuilder, newParser func(lexer.Lexer, *gr
 							if err != nil {
 								return "ast-reject"
 							}
-							return node.String()
+							return node.String() + astDOT(node)
 						}))
 					}
 					if p3, e3 := newParser(newSliceLexer(in), buildGrammar(spec, inst+gi), buildPrec(spec, inst+gi, levels)); e3 == nil {
@@ -822,6 +822,14 @@ func wlAutomata(inst int) string {
 	}
 	out = append(out, fmt.Sprint(nt, dt, len(n.Next(so, automata.E)), d.Next(0, 'a'+yo) >= 0, len(n.DOT()) > 0, len(m.DOT()) > 0, n.Equal(n.Clone()), len(n.String()) > 0))
 	return dig(out...)
+}
+
+// astDOT renders an abstract syntax tree through package dot (record labels with escaping)
+func astDOT(n parser.Node) string {
+	if in, ok := n.(*parser.InternalNode); ok {
+		return in.DOT()
+	}
+	return n.String()
 }
 
 // guarded turns a panic of one query into a (deterministic) result instead of losing the rest of the digest
